@@ -146,6 +146,9 @@ func (f *Fam) other(client string) string {
 	return "A"
 }
 
+// foreignBy: the caller authenticates correctly, but as a client other than the owner of the credential.
+func foreignBy(by string) bool { return by == "other" || by == "casevariant" || by == "other-public" }
+
 func (f *Fam) authBy(owner, by string) Auth {
 	switch by {
 	case "owner", "owner-forged":
@@ -155,6 +158,12 @@ func (f *Fam) authBy(owner, by string) Auth {
 	case "casevariant":
 		// a different registered client whose id differs only in letter case
 		return f.W.AuthFor(strings.ToLower(owner))
+	case "other-public":
+		// a different registered client that is public (authenticates with its client_id alone)
+		if owner == "P" {
+			return f.W.AuthFor("p")
+		}
+		return f.W.AuthFor("P")
 	case "badsecret":
 		if c := f.W.Mem.Clients[owner]; c != nil && c.IsPublic() {
 			// a public client has no secret to get wrong: present a confidential client id with a wrong secret instead
@@ -502,7 +511,7 @@ func (f *Fam) applyRedeem(op Op) string {
 			f.violate("C01", "C01/replay-not-invalid_grant/by="+op.By+"/got="+o.Err, "replay of a redeemed code by an authenticated client was not answered with invalid_grant", "invalid_grant", o)
 		}
 		f.killFamily(g, "C01")
-	case op.By == "other" || op.By == "casevariant":
+	case foreignBy(op.By):
 		if issued(o) {
 			f.violate("C02", "C02/foreign-client-redeemed-code", "a code was redeemed by a client it was not issued to", "invalid_grant", o)
 			f.recordPair(o, g, false)
@@ -563,7 +572,7 @@ func (f *Fam) applyRefresh(op Op) string {
 		}
 		f.killFamily(g, "C04")
 	case issued(o):
-		if op.By == "other" || op.By == "casevariant" {
+		if foreignBy(op.By) {
 			f.violate("C05", "C05/refresh-honoured-for-foreign-client", "a refresh token was honoured for a client it was not issued to", "refusal", o)
 		}
 		if t.Status != "live" {
@@ -640,7 +649,7 @@ func (f *Fam) applyRevoke(op Op) string {
 			f.violate("C08", "C08/unauthenticated-revocation-accepted", "revocation accepted from a caller that failed client authentication", "invalid_client", o)
 		}
 		unchanged("unauthenticated-caller")
-	case op.By == "other" || op.By == "casevariant":
+	case foreignBy(op.By):
 		if t.Status == "live" && live {
 			if goErr != "unauthorized_client" {
 				f.violate("C08", "C08/foreign-client-not-unauthorized_client/by="+op.By+"/hint="+op.Hint+"/got="+goErr, "revocation of a live token by a different client was not refused as unauthorized_client", "unauthorized_client", o)
